@@ -625,7 +625,7 @@ pub fn main(ctx: &Ctx) -> i32 {
         };
         return replay(ctx, &body);
     }
-    let runs: u64 = ctx.tier.pick(48, 600);
+    let runs: u64 = if prop == "C12" { ctx.tier.pick(300, 3000) } else { ctx.tier.pick(64, 800) };
     let res = crate::core::pool::run_jobs(runs, |idx| {
         let mut out = RunOut::default();
         one_run(ctx, &prop, idx, &mut out);
